@@ -43,6 +43,11 @@ func HandleCommonErrors(w http.ResponseWriter, r *http.Request, err error) {
 		api.BadRequest(w, ErrSchemaNotSpecified, err)
 	case errors.Is(err, ledgercontroller.ErrSchemaNotFound{}):
 		api.NotFound(w, err)
+	case errors.Is(err, storagecommon.ErrInvalidQuery{}),
+		errors.Is(err, ledger.ErrMissingFeature{}):
+		// a read of ONE resource can be refused for the same reasons as a listing (an expansion
+		// the features of the ledger cannot serve, for instance): a client error there too
+		api.BadRequest(w, ErrValidation, err)
 	default:
 		InternalServerError(w, r, err)
 	}
